@@ -600,6 +600,10 @@ func (s *MemoryStore) maybePruneLocked(now time.Time) {
 	s.lastPrune = now
 }
 
+// memoryPollInterval bounds how long a waiting Dequeue sleeps between checks
+// for messages that became due by the passage of time.
+const memoryPollInterval = 25 * time.Millisecond
+
 func (s *MemoryStore) Dequeue(req DequeueRequest) (DequeueResponse, error) {
 	batch := req.Batch
 	if batch <= 0 {
@@ -689,7 +693,14 @@ func (s *MemoryStore) Dequeue(req DequeueRequest) (DequeueResponse, error) {
 			return DequeueResponse{}, nil
 		}
 
-		timer := time.NewTimer(remaining)
+		// Wake up periodically as well: a message can become due while we wait
+		// without anything being enqueued (a lease runs out, a nack delay or a
+		// scheduled next_run_at arrives). Same cadence as the SQLite backend.
+		sleep := remaining
+		if sleep > memoryPollInterval {
+			sleep = memoryPollInterval
+		}
+		timer := time.NewTimer(sleep)
 		select {
 		case <-waitCh:
 			if !timer.Stop() {
@@ -697,7 +708,7 @@ func (s *MemoryStore) Dequeue(req DequeueRequest) (DequeueResponse, error) {
 			}
 			continue
 		case <-timer.C:
-			return DequeueResponse{}, nil
+			continue
 		}
 	}
 }
